@@ -5,6 +5,7 @@ the mock Dezyne runtime and the simulation kernel --> one binary per (model, con
 executed on batches of run tapes.
 """
 import fcntl
+import json
 import os
 import shutil
 import subprocess
@@ -125,12 +126,28 @@ def generate_files(spec, cfgspec, json_bytes):
         raise GenerationFailure(f'{type(exc).__module__}.{type(exc).__name__}: {exc}') from exc
 
 
-def prepare_model(spec, cfgspec, json_bytes, flavor='asan', scratch_root=None, files=None) -> ModelBuild:
+def companion_cfg(spec, cfgspec):
+    """Configuration of the COMPANION shell of a model: the same component wrapped a second time, with the other
+    facilities origin and another name, generated by the same dznpy and linked into the same simulated program (a
+    program may well contain several generated shells).  None when the model gets no companion."""
+    if not cfgspec.get('companion') or not spec['component']['ns']:
+        return None
+    c = json.loads(json.dumps(cfgspec))
+    c['origin'] = 'IMPORT' if cfgspec['origin'] == 'CREATE' else 'CREATE'
+    c['suffix'] = cfgspec['suffix'] + 'Mate'
+    c['companion'] = False
+    return c
+
+
+def prepare_model(spec, cfgspec, json_bytes, flavor='asan', scratch_root=None, files=None, companion_files=None) -> ModelBuild:
     import time
     t0 = time.time()
     kobj, hobj = ensure_runtime(flavor)
     if files is None:
         files = generate_files(spec, cfgspec, json_bytes)
+    ccfg = companion_cfg(spec, cfgspec)
+    if ccfg is not None and companion_files is None:
+        companion_files = generate_files(spec, ccfg, json_bytes)
     workdir = tempfile.mkdtemp(prefix='verif-A-', dir=scratch_root)
     mb = ModelBuild(workdir, spec, cfgspec, flavor)
     mb.files = files
@@ -144,6 +161,18 @@ def prepare_model(spec, cfgspec, json_bytes, flavor='asan', scratch_root=None, f
         with open(os.path.join(workdir, 'glue.cc'), 'w') as f:
             f.write(cxxgen.gen_glue(spec, cfgspec))
         generated_names = {n for n, _, _ in files}
+        mate_cc = None
+        if ccfg is not None:
+            main_names = {n for n, _, _ in files}
+            for name, contents, _ in companion_files:
+                if name in main_names:
+                    continue   # the support files: same prefix, same text
+                with open(os.path.join(workdir, name), 'w', encoding='utf-8', newline='') as f:
+                    f.write(contents)
+            generated_names |= {n for n, _, _ in companion_files}
+            mate_cc = cxxgen.shell_names(spec, ccfg)[1] + '.cc'
+            if mate_cc not in generated_names:
+                raise CompileFailure('generated', f'builder did not return {mate_cc}')
         shell_cc = shell + '.cc'
         if shell_cc not in generated_names:
             raise CompileFailure('generated', f'builder did not return {shell_cc}; got {sorted(generated_names)}')
@@ -157,7 +186,7 @@ def prepare_model(spec, cfgspec, json_bytes, flavor='asan', scratch_root=None, f
             text = open(gpath).read().replace(f'#include "{shell}.hh"', f'#include "{shell_cc}"', 1)
             with open(gpath, 'w') as f:
                 f.write(text)
-        for src in (('glue.cc',) if single_tu else (shell_cc, 'glue.cc')):
+        for src in (('glue.cc',) if single_tu else ((shell_cc, mate_cc, 'glue.cc') if mate_cc else (shell_cc, 'glue.cc'))):
             obj = src + '.o'
             opt = ['-O0'] if src == 'glue.cc' else []
             r = _run([CXX] + COMMON + opt + FLAVORS[flavor] + ['-I', CXX_DIR, '-I', workdir, '-c', src, '-o', obj], cwd=workdir)
